@@ -49,6 +49,7 @@ extern "C" {
 uint32_t vf_spawn(void* (*fn)(void*), void* arg) { pthread_create(&g_threads[g_nthreads], 0, fn, arg); return g_nthreads++; }
 uint64_t vf_join(uint32_t t) { void* r = 0; pthread_join(g_threads[t], &r); return (uint64_t)r; }
 void vf_yield(void) {}
+unsigned vf_cond_waiters(void) { return 1000; }   // not observable natively (units using it are engine-only)
 }
 extern "C" int VF_ENTRY(void);
 int main() { init(); VF_ENTRY(); if (g_log) fclose(g_log); if (g_tr) fclose(g_tr); return 0; }
